@@ -278,7 +278,7 @@ func (g *qgen) leafSel(meta string) string {
 	return strings.Join(parts, " ")
 }
 
-func genQuery(t *rapid.T, typeNames []string, allowFindingShapes bool) queryCase {
+func genQuery(t *rapid.T, typeNames []string, queryType string, allowFindingShapes bool) queryCase {
 	g := &qgen{t: t, typeNames: typeNames, vars: map[string]any{}, incDepArgs: true}
 	// operation variables and includeDeprecated arguments only meet in a class of their own
 	// (recorded finding: the argument is lost once the operation declares variables)
@@ -348,7 +348,17 @@ func genQuery(t *rapid.T, typeNames []string, allowFindingShapes bool) queryCase
 	} else {
 		head = rapid.SampledFrom([]string{"", "query ", "query Intro "}).Draw(t, "head")
 	}
-	q := head + "{ " + strings.Join(roots, " ") + " }"
+	body := strings.Join(roots, " ")
+	if !g.rootTypename && chance(t, 8, "root-fragment") {
+		// the root fields inside a fragment on the query type
+		if rapid.Bool().Draw(t, "root-fragment-named") {
+			g.frags = append(g.frags, "fragment Root on "+queryType+" { "+body+" }")
+			body = "...Root"
+		} else {
+			body = "... on " + queryType + " { " + body + " }"
+		}
+	}
+	q := head + "{ " + body + " }"
 	if len(g.frags) > 0 {
 		q += " " + strings.Join(g.frags, " ")
 	}
